@@ -3,7 +3,7 @@ import copy
 import itertools
 import re
 
-from harness.core import Property
+from harness.core import Property, CaseTimeout
 from harness.props import markup_common as mc
 from harness.props.markup_common import S, B, I, MAYBE
 
@@ -245,6 +245,8 @@ def apply_op(gen, op):
             raise ValueError(kind)
     except AssertionError:
         raise
+    except CaseTimeout:
+        raise
     except Exception as e:  # noqa
         return type(e).__name__, None
     return None, None
@@ -268,6 +270,8 @@ def run_reference(case, resolver=spec_resolve, stop_before=None):
     bad_init = [k for k, _ in init["settings"] if k not in KNOWN_KEYS]
     try:
         gen = make_generator(init)
+    except CaseTimeout:
+        raise
     except Exception as e:  # noqa
         cls = type(e).__name__
         want = "TypeError" if init["markup"] not in ("xml", "xhtml", "html") else ("KeyError" if bad_init else None)
@@ -516,6 +520,7 @@ class C19(Property):
                        "{absent,on,off,auto} for each of the five auto_* options on a tag the transform applies to, with and "
                        "without a pre-existing attribute")
     quick_n = 40000
+    case_timeout = 60      # the machine is shared: a stalled worker must not look like a hang of the library
     thorough_n = 400000
 
     # ------------------------------------------------------------------ cases
@@ -570,6 +575,8 @@ class C19(Property):
     def run_impl(self, case):
         try:
             gen = make_generator(case["init"])
+        except CaseTimeout:
+            raise
         except Exception as e:  # noqa
             return {"init_err": type(e).__name__, "steps": [], "open": None}
         obs = {"init_err": None, "init_ctx": snapshot(gen), "steps": []}
@@ -605,6 +612,8 @@ class C19(Property):
         # replay the prefix to get the levels and the tabindex in force just before op i
         try:
             _, levels, tb = run_reference(case, stop_before=i)
+        except CaseTimeout:
+            raise
         except Exception:  # noqa
             return None
         op = case["ops"][i]
